@@ -194,6 +194,8 @@ def execute(case, hook=None):
                 if batch:
                     xs = xs[:2]
             ys = [f(x) + (1.0 if x == redo else 0.0) for x in xs]
+            if (force or (len(xs) > 0.5 * len(l.data) and len(xs) > 2)) and not bounds_fixed():
+                stats["batch_before_bounds_fixed"] = stats.get("batch_before_bounds_fixed", 0) + 1
             l.tell_many(xs, ys, force=force)
             emit(f"l1 tell_many {int(force)} " + ";".join(f"{fb(x)}:{fval(y)}" for x, y in zip(xs, ys)), "ok " + obs(l))
             info = {"op": "tell_many", "xs": xs, "batch": force or (len(xs) > 2)}
